@@ -82,6 +82,8 @@ def call(tt, case):
         if cls == "ellipsis_ttm": return lambda: X[(Ellipsis,) + (0,) * d]
         if cls == "pair_kinds": return lambda: X[(0,) * d + (slice(None),) * d]
         if cls == "too_few": return lambda: X[(0, 0)] if d > 1 else X[(0,)]
+        if cls == "short": return lambda: X[(0,) * (d - 1)]
+        if cls == "short_slices": return lambda: X[(slice(None),) * (d - 1)]
         if cls == "bare_int": return lambda: X[0]
         if cls == "bare_slice": return lambda: X[0:1]
     if op == "apply_mask":
